@@ -34,7 +34,7 @@ theorem mainBlocksN_eq (top : Bool) : ∀ n : Node, blockNamesOf (regionN top n)
   | .call .. => by simp [regionN, mainBlocksN, blockNamesOf]
   | .attr .. => by simp [regionN, mainBlocksN, blockNamesOf]
   | .args => by simp [regionN, mainBlocksN, blockNamesOf]
-  | .defn _ _ => by cases top <;> simp [regionN, mainBlocksN, blockNamesOf]
+  | .defn _ _ _ => by cases top <;> simp [regionN, mainBlocksN, blockNamesOf]
   | .callTag _ => by simp [regionN, mainBlocksN, blockNamesOf]
   | .block (some b) _ k => by simp [regionN, mainBlocksN, blockNamesOf, mainBlocksL_eq false k]
   | .block none _ k => by simp [regionN, mainBlocksN, blockNamesOf, mainBlocksL_eq false k]
@@ -49,7 +49,7 @@ theorem anonLinesN_sub (top : Bool) : ∀ n : Node, (anonLines (regionN top n)).
   | .call .. => by simp [regionN, anonLines]
   | .attr .. => by simp [regionN, anonLines]
   | .args => by simp [regionN, anonLines]
-  | .defn _ _ => by cases top <;> simp [regionN, anonLines]
+  | .defn _ _ _ => by cases top <;> simp [regionN, anonLines]
   | .callTag _ => by simp [regionN, anonLines]
   | .block (some b) _ k => by
     simp only [regionN, anonLines, allAnonLinesN]; exact anonLinesL_sub false k
@@ -68,7 +68,7 @@ theorem defNamesN_sub (top : Bool) : ∀ n : Node, (defNamesOf (regionN top n)).
   | .call .. => by simp [regionN, defNamesOf]
   | .attr .. => by simp [regionN, defNamesOf]
   | .args => by simp [regionN, defNamesOf]
-  | .defn _ _ => by cases top <;> simp [regionN, defNamesOf, allDefNamesN]
+  | .defn _ _ _ => by cases top <;> simp [regionN, defNamesOf, allDefNamesN]
   | .callTag _ => by simp [regionN, defNamesOf]
   | .block (some b) _ k => by
     simp only [regionN, defNamesOf, allDefNamesN]; exact defNamesL_sub false k
@@ -86,7 +86,7 @@ theorem topDefNames_sub : ∀ l : List Node, (topDefNames l).Sublist (allDefName
   | n :: r => by
     have ih := topDefNames_sub r
     cases n with
-    | defn nm k =>
+    | defn nm _ k =>
       simp only [topDefNames, allDefNamesL, allDefNamesN, List.cons_append]
       exact (ih.trans (List.sublist_append_right _ _)).cons_cons _
     | text _ => simpa [topDefNames, allDefNamesL, allDefNamesN] using ih
@@ -331,7 +331,7 @@ theorem defsOf_topRegs_region : ∀ l : List Node, defsOfRegs (topRegs (regionL 
       exact noRdef k
     rw [regionL, topRegs_append, happ, ih]
     cases n with
-    | defn nm k => simp [regionN, topRegs, defsOfRegs, topDefNames]
+    | defn nm _ k => simp [regionN, topRegs, defsOfRegs, topDefNames]
     | text _ => simp [regionN, topRegs, defsOfRegs, topDefNames]
     | call _ _ _ _ => simp [regionN, topRegs, defsOfRegs, topDefNames]
     | attr _ _ => simp [regionN, topRegs, defsOfRegs, topDefNames]
@@ -358,7 +358,7 @@ where
     | .call .. => by simp [regionN]
     | .attr .. => by simp [regionN]
     | .args => by simp [regionN]
-    | .defn _ _ => by simp [regionN]
+    | .defn _ _ _ => by simp [regionN]
     | .callTag _ => by simp [regionN]
     | .block (some b) _ k => by
       intro e he nm
@@ -389,7 +389,7 @@ theorem allBlocksN_nil_iff : ∀ n : Node, allBlocksN n = [] ↔ mainBlocksN n =
   | .call .. => by simp [allBlocksN, mainBlocksN, misplacedN]
   | .attr .. => by simp [allBlocksN, mainBlocksN, misplacedN]
   | .args => by simp [allBlocksN, mainBlocksN, misplacedN]
-  | .defn _ _ => by simp [allBlocksN, mainBlocksN, misplacedN]
+  | .defn _ _ _ => by simp [allBlocksN, mainBlocksN, misplacedN]
   | .callTag _ => by simp [allBlocksN, mainBlocksN, misplacedN]
   | .block (some b) _ k => by simp [allBlocksN, mainBlocksN, misplacedN]
   | .block none _ k => by simp [allBlocksN, mainBlocksN, misplacedN, allBlocksL_nil_iff k]
@@ -409,7 +409,7 @@ theorem allBlocksN_eq_main : ∀ n : Node, misplacedN n = [] → allBlocksN n = 
   | .call .. => by simp [allBlocksN, mainBlocksN]
   | .attr .. => by simp [allBlocksN, mainBlocksN]
   | .args => by simp [allBlocksN, mainBlocksN]
-  | .defn _ _ => by simp [allBlocksN, mainBlocksN, misplacedN]
+  | .defn _ _ _ => by simp [allBlocksN, mainBlocksN, misplacedN]
   | .callTag _ => by simp [allBlocksN, mainBlocksN, misplacedN]
   | .block (some b) _ k => by
     intro h; simp only [misplacedN] at h
@@ -439,8 +439,8 @@ theorem scan_block_nil (k : List Node) (ha : (allAnonLinesL k).Nodup) :
     scan .block (regionL false k) = [] := by
   simp [scan, dupLines_region false k ha]
 
-theorem survives_of_nodup (rk : Root) (nm : Name) (k rest : List Node)
-    (h : (allDefNamesL (.defn nm k :: rest)).Nodup) : survives rk nm rest = true := by
+theorem survives_of_nodup (rk : Root) (nm : Name) (ps : List (Name × Option Val)) (k rest : List Node)
+    (h : (allDefNamesL (.defn nm ps k :: rest)).Nodup) : survives rk nm rest = true := by
   simp only [allDefNamesL, allDefNamesN, List.cons_append, List.nodup_cons, List.mem_append, not_or] at h
   have hr : nm ∉ allDefNamesL rest := h.1.2
   cases rk with
@@ -463,13 +463,13 @@ theorem deepN_nil_iff (rk : Root) (rest : List Node) : ∀ n : Node,
   | .call .. => by simp [deepN, misplacedN]
   | .attr .. => by simp [deepN, misplacedN]
   | .args => by simp [deepN, misplacedN]
-  | .defn nm k => by
+  | .defn nm ps k => by
     intro hd ha
     have hk : (allDefNamesL k).Nodup := by
       simp only [allDefNamesL, allDefNamesN, List.cons_append, List.nodup_cons] at hd
       exact (List.nodup_append.mp hd.2).1
     simp only [allAnonLinesN] at ha
-    simp only [deepN, survives_of_nodup rk nm k rest hd, if_true, List.append_eq_nil_iff, misplacedN,
+    simp only [deepN, survives_of_nodup rk nm ps k rest hd, if_true, List.append_eq_nil_iff, misplacedN,
       scan_defn_nil k ha, deepL_nil_iff .defn k hk ha, allBlocksL_nil_iff k]
   | .callTag k => by
     intro hd ha
